@@ -20,6 +20,12 @@ mod harness {
         fn usize(&mut self) -> usize {
             kani::any()
         }
+        fn u64(&mut self) -> u64 {
+            kani::any()
+        }
+        fn u128(&mut self) -> u128 {
+            kani::any()
+        }
         fn assume(&mut self, c: bool) -> bool {
             kani::assume(c);
             true
@@ -34,20 +40,28 @@ mod harness {
     }
 
     macro_rules! codec_harness {
-        ($name:ident, $items:ident, $t:ty) => {
+        ($name:ident, $ascii:ident, $rows:ident, $t:ty) => {
             #[kani::proof]
             fn $name() {
                 codec_contract::<$t, _>(&mut KaniSrc);
             }
+            #[kani::proof]
+            fn $ascii() {
+                codec_ascii_law::<$t, _>(&mut KaniSrc);
+            }
+            #[kani::proof]
+            fn $rows() {
+                codec_rows_law::<$t, _>(&mut KaniSrc);
+            }
         };
     }
-    codec_harness!(codec_contract_dna, codec_items_dna, Dna);
-    codec_harness!(codec_contract_iupac, codec_items_iupac, Iupac);
-    codec_harness!(codec_contract_amino, codec_items_amino, Amino);
-    codec_harness!(codec_contract_text, codec_items_text, text::Dna);
-    codec_harness!(codec_contract_masked_dna, codec_items_masked_dna, masked::dna::Dna);
-    codec_harness!(codec_contract_masked_iupac, codec_items_masked_iupac, masked::iupac::Iupac);
-    codec_harness!(codec_contract_degenerate, codec_items_degenerate, degenerate::dna::Dna);
+    codec_harness!(codec_contract_dna, codec_ascii_dna, codec_rows_dna, Dna);
+    codec_harness!(codec_contract_iupac, codec_ascii_iupac, codec_rows_iupac, Iupac);
+    codec_harness!(codec_contract_amino, codec_ascii_amino, codec_rows_amino, Amino);
+    codec_harness!(codec_contract_text, codec_ascii_text, codec_rows_text, text::Dna);
+    codec_harness!(codec_contract_masked_dna, codec_ascii_masked_dna, codec_rows_masked_dna, masked::dna::Dna);
+    codec_harness!(codec_contract_masked_iupac, codec_ascii_masked_iupac, codec_rows_masked_iupac, masked::iupac::Iupac);
+    codec_harness!(codec_contract_degenerate, codec_ascii_degenerate, codec_rows_degenerate, degenerate::dna::Dna);
 
     #[kani::proof]
     fn complement_dna() {
@@ -84,6 +98,194 @@ mod harness {
     #[kani::proof]
     fn amino_table() {
         amino_table_law(&mut KaniSrc);
+    }
+    #[kani::proof]
+    fn kmer_dna_ops_k1() {
+        kmer_dna_ops_law::<1, _>(&mut KaniSrc);
+    }
+    #[kani::proof]
+    fn kmer_dna_ops_k2() {
+        kmer_dna_ops_law::<2, _>(&mut KaniSrc);
+    }
+    #[kani::proof]
+    fn kmer_dna_ops_k3() {
+        kmer_dna_ops_law::<3, _>(&mut KaniSrc);
+    }
+    #[kani::proof]
+    fn kmer_dna_ops_k4() {
+        kmer_dna_ops_law::<4, _>(&mut KaniSrc);
+    }
+    #[kani::proof]
+    fn kmer_dna_ops_k5() {
+        kmer_dna_ops_law::<5, _>(&mut KaniSrc);
+    }
+    #[kani::proof]
+    fn kmer_dna_ops_k6() {
+        kmer_dna_ops_law::<6, _>(&mut KaniSrc);
+    }
+    #[kani::proof]
+    fn kmer_dna_ops_k7() {
+        kmer_dna_ops_law::<7, _>(&mut KaniSrc);
+    }
+    #[kani::proof]
+    fn kmer_dna_ops_k8() {
+        kmer_dna_ops_law::<8, _>(&mut KaniSrc);
+    }
+    #[kani::proof]
+    fn kmer_dna_ops_k9() {
+        kmer_dna_ops_law::<9, _>(&mut KaniSrc);
+    }
+    #[kani::proof]
+    fn kmer_dna_ops_k10() {
+        kmer_dna_ops_law::<10, _>(&mut KaniSrc);
+    }
+    #[kani::proof]
+    fn kmer_dna_ops_k11() {
+        kmer_dna_ops_law::<11, _>(&mut KaniSrc);
+    }
+    #[kani::proof]
+    fn kmer_dna_ops_k12() {
+        kmer_dna_ops_law::<12, _>(&mut KaniSrc);
+    }
+    #[kani::proof]
+    fn kmer_dna_ops_k13() {
+        kmer_dna_ops_law::<13, _>(&mut KaniSrc);
+    }
+    #[kani::proof]
+    fn kmer_dna_ops_k14() {
+        kmer_dna_ops_law::<14, _>(&mut KaniSrc);
+    }
+    #[kani::proof]
+    fn kmer_dna_ops_k15() {
+        kmer_dna_ops_law::<15, _>(&mut KaniSrc);
+    }
+    #[kani::proof]
+    fn kmer_dna_ops_k16() {
+        kmer_dna_ops_law::<16, _>(&mut KaniSrc);
+    }
+    #[kani::proof]
+    fn kmer_dna_ops_k17() {
+        kmer_dna_ops_law::<17, _>(&mut KaniSrc);
+    }
+    #[kani::proof]
+    fn kmer_dna_ops_k18() {
+        kmer_dna_ops_law::<18, _>(&mut KaniSrc);
+    }
+    #[kani::proof]
+    fn kmer_dna_ops_k19() {
+        kmer_dna_ops_law::<19, _>(&mut KaniSrc);
+    }
+    #[kani::proof]
+    fn kmer_dna_ops_k20() {
+        kmer_dna_ops_law::<20, _>(&mut KaniSrc);
+    }
+    #[kani::proof]
+    fn kmer_dna_ops_k21() {
+        kmer_dna_ops_law::<21, _>(&mut KaniSrc);
+    }
+    #[kani::proof]
+    fn kmer_dna_ops_k22() {
+        kmer_dna_ops_law::<22, _>(&mut KaniSrc);
+    }
+    #[kani::proof]
+    fn kmer_dna_ops_k23() {
+        kmer_dna_ops_law::<23, _>(&mut KaniSrc);
+    }
+    #[kani::proof]
+    fn kmer_dna_ops_k24() {
+        kmer_dna_ops_law::<24, _>(&mut KaniSrc);
+    }
+    #[kani::proof]
+    fn kmer_dna_ops_k25() {
+        kmer_dna_ops_law::<25, _>(&mut KaniSrc);
+    }
+    #[kani::proof]
+    fn kmer_dna_ops_k26() {
+        kmer_dna_ops_law::<26, _>(&mut KaniSrc);
+    }
+    #[kani::proof]
+    fn kmer_dna_ops_k27() {
+        kmer_dna_ops_law::<27, _>(&mut KaniSrc);
+    }
+    #[kani::proof]
+    fn kmer_dna_ops_k28() {
+        kmer_dna_ops_law::<28, _>(&mut KaniSrc);
+    }
+    #[kani::proof]
+    fn kmer_dna_ops_k29() {
+        kmer_dna_ops_law::<29, _>(&mut KaniSrc);
+    }
+    #[kani::proof]
+    fn kmer_dna_ops_k30() {
+        kmer_dna_ops_law::<30, _>(&mut KaniSrc);
+    }
+    #[kani::proof]
+    fn kmer_dna_ops_k31() {
+        kmer_dna_ops_law::<31, _>(&mut KaniSrc);
+    }
+    #[kani::proof]
+    fn kmer_dna_ops_k32() {
+        kmer_dna_ops_law::<32, _>(&mut KaniSrc);
+    }
+    #[kani::proof]
+    fn kmer_rev_iupac_k2() {
+        kmer_rev_law::<Iupac, 2, _>(&mut KaniSrc);
+    }
+    #[kani::proof]
+    fn kmer_rev_iupac_k5() {
+        kmer_rev_law::<Iupac, 5, _>(&mut KaniSrc);
+    }
+    #[kani::proof]
+    fn kmer_rev_iupac_k16() {
+        kmer_rev_law::<Iupac, 16, _>(&mut KaniSrc);
+    }
+    #[kani::proof]
+    fn kmer_rev_amino_k3() {
+        kmer_rev_law::<Amino, 3, _>(&mut KaniSrc);
+    }
+    #[kani::proof]
+    fn kmer_rev_amino_k10() {
+        kmer_rev_law::<Amino, 10, _>(&mut KaniSrc);
+    }
+    #[kani::proof]
+    fn kmer_rev_text_k1() {
+        kmer_rev_law::<text::Dna, 1, _>(&mut KaniSrc);
+    }
+    #[kani::proof]
+    fn kmer_rev_text_k8() {
+        kmer_rev_law::<text::Dna, 8, _>(&mut KaniSrc);
+    }
+    #[kani::proof]
+    fn kmer_rev_masked_iupac_k12() {
+        kmer_rev_law::<masked::iupac::Iupac, 12, _>(&mut KaniSrc);
+    }
+    #[kani::proof]
+    fn kmer_rev_degenerate_k7() {
+        kmer_rev_law::<degenerate::dna::Dna, 7, _>(&mut KaniSrc);
+    }
+    #[kani::proof]
+    fn kmer_rev_dna_k9() {
+        kmer_rev_law::<Dna, 9, _>(&mut KaniSrc);
+    }
+    #[kani::proof]
+    fn kmer_ord_dna_k5() {
+        kmer_ord_law_usize::<Dna, 5, _>(&mut KaniSrc);
+    }
+    #[kani::proof]
+    fn kmer_ord_dna_k32() {
+        kmer_ord_law_usize::<Dna, 32, _>(&mut KaniSrc);
+    }
+    #[kani::proof]
+    fn kmer_ord_text_k3() {
+        kmer_ord_law_usize::<text::Dna, 3, _>(&mut KaniSrc);
+    }
+    #[kani::proof]
+    fn kmer_ord_miupac_k12_u64() {
+        kmer_ord_law_u64::<masked::iupac::Iupac, 12, _>(&mut KaniSrc);
+    }
+    #[kani::proof]
+    fn kmer_ord_dna_k40_u128() {
+        kmer_ord_law_u128(&mut KaniSrc);
     }
     #[kani::proof]
     fn text_bits_identity() {
